@@ -75,6 +75,10 @@ def main(argv=None) -> int:
         # typestate of one-shot iterators in the code the rules looked at (rules/oneshot.py)
         from .rules import oneshot
         rep.extra["oneshot_functions"] = oneshot.check(project, rep)
+        # module-level memo caches written by that code (rules/memo_rule.py): keyed by everything they depend on?
+        if pid != "C19":   # C19 decides them itself, next to the rest of module state (PU-CACHE / PU-STATE)
+            from .rules import memo_rule
+            rep.extra["memo_caches"] = memo_rule.check(project, rep)
         # the evaluator itself against CPython on its corpus of micro-programs (selftest/conformance): a run the evaluator calls
         # exact must give Python's value; a disagreement means verdicts that rest on evaluation cannot be trusted
         from .selftest.conformance.run import run as _conformance
